@@ -24,12 +24,13 @@ TRUSTED = ["IEEE-754: value*weight of the small dyadic inputs used here is exact
 ASSUMPTIONS = ["all fitnesses of a population have the same number of objectives (>= 1; >= 2 for sortLogNondominated), "
                "finite values (no NaN), non-zero weights, k >= 0",
                "individuals are distinct objects (an object listed twice is outside 'appearing once')"]
-EXPLANATION = ("C04.sortStd_eq_peel etc. prove that the model of sortNondominated returns the leading fronts of the Pareto "
-               "ranking defined by peeling, for every population and k; C04.ranking_unique proves that the two local "
-               "conditions run by the driver's checker on every complete output of both real procedures characterise that "
-               "ranking (C04.checkRanking_sound); for the model of sortLogNondominated termination (C04.sortLog_terminates), "
-               "partition/grouping and truncation are proved, its ranking is certified per run; the correspondence ties the "
-               "models of both procedures and the peeling spec to the real code.")
+EXPLANATION = ("C04.sortStd_eq_peel and C04.sortLog_eq_peel prove that the models of sortNondominated and of "
+               "sortLogNondominated (at least two objectives, ordered field) terminate and return the leading fronts of the "
+               "Pareto ranking defined by peeling, for every population and k, hence always agree (C04.sortLog_eq_sortStd); the "
+               "helper specifications (sweepA/sweepB/sortNDHelperA/sortNDHelperB) are theorems of their own; "
+               "C04.ranking_unique / C04.checkRanking_sound additionally certify every complete output of both real "
+               "procedures through the driver's checker; the correspondence ties the models of both procedures and the "
+               "peeling spec to the real code.")
 
 
 def sfr(q):
